@@ -309,7 +309,7 @@ def oracle_builtin(case, r):
     msg = oracle_sbs(case, rr, score_fn=lambda s, k, e: Fraction(tab[f"{s},{k},{e}"]))
     if msg:
         return msg
-    if r["scale"] is not None and abs(r["thr"] - r["scale"] * r["default_thr"]) > 1e-12 * (1 + abs(r["thr"])):
+    if r["scale"] is not None and not abs(r["thr"] - r["scale"] * r["default_thr"]) <= 1e-12 * (1 + abs(r["thr"])):
         return f"threshold_ {r['thr']} is not threshold_scale x default {r['scale']} x {r['default_thr']}"
     return None
 
